@@ -80,6 +80,12 @@ func (m *MonC08) OnReq(w *World, r *Req) {
 				if sr <= xr || store.Str(s, "spec", "lifecycleState") == "Archived" || store.Deleting(s) {
 					continue // older, or a tombstone that takes nothing over
 				}
+				if odPaused, _ := store.Get(od, "spec", "paused").(bool); !odPaused && store.Str(s, "spec", "lifecycleState") == "Paused" {
+					// an intermediate revision that the (unpaused) deployment has paused on its way to the
+					// archive adopts nothing, whatever its probes say about objects others keep alive
+					w.Stats.Probe("c08-paused-intermediate-not-incoming")
+					continue
+				}
 				newer = append(newer, s)
 				if CondTrue(s, "Available") {
 					available = append(available, s)
